@@ -319,6 +319,35 @@ fn part_b(depth: usize, st: &mut Stats) {
             }
         }
     }
+    // a typed writer built with a schema override (the same shape in another namespace): the header is the
+    // fingerprint of THAT schema, and a generic reader for it reads the message
+    {
+        let mut j: J = serde_json::from_str(EVT_SCHEMA).unwrap();
+        j["namespace"] = json!("other.ns");
+        let over = Schema::parse(&j).expect("override schema");
+        let header = expected_header(&j);
+        let reader = GenericSingleObjectReader::builder().schema(over.clone()).build().expect("reader");
+        for (i, op) in [Op::Short, Op::Medium].iter().enumerate() {
+            st.evaluations += 1;
+            st.transitions += 1;
+            let e = evt(*op);
+            let r = guarded(|| -> Result<Vec<u8>, String> {
+                let w = SpecificSingleObjectWriter::<Evt>::builder().resolved(over.clone()).map_err(|e| e.to_string())?.build();
+                let mut out = vec![];
+                w.write_ref(&e, &mut out).map_err(|e| e.to_string())?;
+                Ok(out)
+            });
+            let ok = matches!(&r, Ok(Ok(out)) if out.starts_with(&header) && {
+                let mut cur: &[u8] = out;
+                reader.read_value(&mut cur).is_ok_and(|g| g == Value::from(e.clone())) && cur.is_empty()
+            });
+            if ok {
+                st.outcome("typed-override-ok");
+            } else {
+                st.violate(1 << 40 | (100 + i) as u64, "typed single-object writer with a schema override: header is not that schema's fingerprint or the message does not read back", json!({"value": format!("{e:?}"), "override_schema": j, "expected_header": hex(&header), "observed": ev::trunc(&format!("{r:?}"), 300)}), json!({"part": "B-typed"}));
+            }
+        }
+    }
     // all histories up to `depth`
     let mut order = 2u64 << 40;
     fn rec(cx: &BCtx, hist: &mut Vec<Op>, depth: usize, st: &mut Stats, order: &mut u64) {
